@@ -196,3 +196,5 @@ m('benign_lazy_transpose_as_matrix', ['C04', 'C03', 'C18'], '_base/core.py',
   note='correct dense shortcut for the lazy transpose (no conjugation)')
 m('benign_strict_diagonal_tuple_compare', ['C05', 'C08', 'C11'], '_base/diagonal.py', '        if shape != input_shape:\n', '        if tuple(shape) != tuple(input_shape):\n')
 m('benign_toeplitz_cast_via_asarray', ['C09', 'C05'], 'operators/toeplitz.py', '            Y_padded = Y_padded.astype(dtype)\n', '            Y_padded = jnp.asarray(Y_padded, dtype=dtype)\n')
+m('revert_block_rule_layout_check', ['C01'], '_base/blocks.py', '        if left_treedef != right_treedef:\n            raise NoReduction\n', '        if False:\n            raise NoReduction\n',
+  note='revert of db9de41')
